@@ -11,6 +11,9 @@ import traceback
 from . import core
 
 
+MAX_REPRO = 6   # fresh-process re-executions per run (smallest cases first)
+
+
 def _module(prop):
     return importlib.import_module('mc.props.%s' % prop.lower())
 
@@ -93,7 +96,8 @@ def do_explore(prop, tier, seed, jobs):
                 prop, known[sig]['what_fails'], sig, v['count']))
             continue
         path = core.write_replay(prop, rec)
-        if os.environ.get('VERIF_NO_REPRO'):
+        if os.environ.get('VERIF_NO_REPRO') or len(reported) >= MAX_REPRO:
+            # enough signatures of this run were already re-executed in a fresh process
             ok, out = True, ''
         else:
             try:
